@@ -35,6 +35,26 @@ void written_case(Tape& t, Stats& st, std::vector<InFile> fs) {
 	remove(out.c_str());
 }
 
+// a file set the creation may refuse (two names equal ignoring case, in different directories): if the library writes an archive for it
+// all the same, that archive is one "the library writes" and must be well-formed - which no archive holding both names can be
+void clash_case(Tape& t, Stats& st, std::vector<InFile> fs) {
+	if (fs.empty()) { InFile f; f.name = "a.txt"; f.content = {1, 2, 3}; fs.push_back(f); }
+	InFile twin = fs[t.below(fs.size())]; twin.name = case_variant(twin.name, t.u64()); twin.dir = twin.dir.empty() ? "%d0/" : ""; twin.content = t.bytes(t.below(9));
+	fs.insert(fs.begin() + t.below(fs.size() + 1), twin);
+	materialise(fs, t);
+	std::vector<std::string> paths; for (auto& f : fs) paths.push_back(f.spelled);
+	mkdirs("%o/"); std::string out = "%o/w.vol"; remove(out.c_str());
+	Out o = guarded([&] { VolFile::CreateArchive(out, paths); });
+	if (o == Out::Ok) {
+		std::vector<uint8_t> bytes; read_file(out, bytes); std::vector<refvol::Entry> ents;
+		std::string err = refvol::parse_strict(bytes, ents);
+		V_CHECK(err.empty(), "archive written by the library (from inputs with two names equal ignoring case) is not well-formed: " << err);
+	}
+	st.cls(o == Out::Ok ? "clash:written" : "clash:refused"); st.nt(hmix(fs.size(), fnv1a(twin.name.data(), twin.name.size())) ^ 0xC1A);
+	for (auto& f : fs) remove((f.dir + f.name).c_str());
+	remove(out.c_str());
+}
+
 struct RefArchive { std::vector<refvol::Member> ms; std::vector<std::vector<uint8_t>> expanded; refvol::EncodeOpts o; };
 
 RefArchive gen_ref(Tape& t) {
@@ -125,6 +145,7 @@ void read_case(const RefArchive& a0, Stats& st, bool sample) {
 
 void run_case(Tape& t, Stats& st) {
 	root();
+	if (t.below(16) == 0) { clash_case(t, st, gen_files(t, 6)); return; }
 	if (t.below(3) == 0) { auto fs = gen_files(t, g_thorough ? 30 : 10); if (st.want_sample()) st.sample("{\"library_written\":" + render(fs, "%o/w.vol") + "}"); written_case(t, st, fs); }
 	else read_case(gen_ref(t), st, true);
 }
@@ -145,6 +166,8 @@ void run_sweep(Stats& st) {
 		}
 		Tape t(tp); written_case(t, st, fs);
 	}
+	for (unsigned k = 0; k < 6; ++k) { if (!sw("clash", k)) continue; std::vector<uint8_t> tq(64); for (size_t i = 0; i < tq.size(); ++i) tq[i] = uint8_t(i * 29 + k * 7 + 1); Tape t(tq);
+		std::vector<InFile> fs; for (unsigned i = 0; i < k % 3 + 1; ++i) { InFile f; f.name = std::string(1, char('m' + i)) + "ember.txt"; f.content.assign(5 + i, uint8_t(i)); fs.push_back(f); } clash_case(t, st, fs); }
 	// (ii) reference archives: member count x unused slots x index-length-extra x name padding x LZH
 	for (unsigned n = 0; n <= 4; ++n) for (unsigned unused = 0; unused <= 3; ++unused) for (unsigned extra = 0; extra <= 13; ++extra) for (unsigned pad = 0; pad <= 1; ++pad) {
 		if (!sw("read_matrix", n, unused, extra, pad)) continue;
